@@ -156,8 +156,8 @@ func guarded(t *Term) bool {
 		return t.S != nil
 	case "combine":
 		return guarded(t.A)
-	case "while":
-		return true
+	case "while", "if":
+		return true // the condition burns fuel
 	case "for":
 		return t.Cond != nil
 	}
@@ -210,7 +210,7 @@ func drawTerm(t *rapid.T, o termOpts, depth int, label string) *Term {
 	kinds := []string{"normal", "break", "continue", "return", "retval"}
 	if depth < o.maxDepth {
 		inner := []string{"delay", "delay", "bind", "bind", "bind", "bindrecv", "combine", "combine", "combine",
-			"for", "for", "while", "loop"}
+			"for", "for", "while", "loop", "if", "if"}
 		kinds = append(kinds, inner...)
 		if depth < 3 {
 			// near the root compound terms dominate, otherwise most drawn terms are a single leaf
@@ -252,6 +252,10 @@ func drawTerm(t *rapid.T, o termOpts, depth int, label string) *Term {
 	case "while":
 		r.Cond = drawCond(t, o, label+".c")
 		r.A = drawTerm(t, o, depth+1, label+"a")
+	case "if":
+		r.Cond = drawCond(t, o, label+".c")
+		r.A = drawTerm(t, o, depth+1, label+"a")
+		r.B = drawTerm(t, o, depth+1, label+"b")
 	case "loop":
 		r.A = drawTerm(t, o, depth+1, label+"a")
 		if !guarded(r.A) {
